@@ -24,7 +24,7 @@ def run(pm, ctx):
     u = pm.unit(K)
     f = u.func("print_kauri_tree")
     ctx.rule("C19-a", "the printed rules must send a point to the child that predict sends it to", floor=5)
-    ctx.rule("C19-b", "names label the features actually used: the guard must bound the largest used index", floor=2)
+    ctx.rule("C19-b", "names label the features actually used: the guard must bound the largest used index", floor=3)
     ctx.rule("C19-c", "unfitted / foreign objects and too few names are refused before anything is printed", floor=3)
     pn = [n for n in ast.walk(f) if isinstance(n, ast.FunctionDef) and n.name == "print_node"]
     if not pn:
@@ -100,6 +100,23 @@ def run(pm, ctx):
         ctx.ok("C19-b", site, "feature_names[feature index]")
     else:
         ctx.violation("C19-b", u.relpath, "print_kauri_tree.print_node", norm_src(fn[0]) if fn else "feature_names[...]", "names are not looked up by the feature index", line=pn.lineno, site=site)
+    # the names subscripted in print_node must be the argument itself: the guard bounds THAT sequence by column index
+    rebinds = [s for s in ast.walk(f) if isinstance(s, (ast.Assign, ast.AugAssign)) and any(
+        isinstance(t, ast.Name) and t.id == "feature_names" for t in (s.targets if isinstance(s, ast.Assign) else [s.target]))]
+    site = "print_kauri_tree: names are indexed by column"
+    if not rebinds:
+        ctx.ok("C19-b", site, "feature_names is never re-bound")
+    else:
+        rb = rebinds[0]
+        v = rb.value
+        same = isinstance(v, ast.Call) and call_name(v) in ("list", "tuple", "np.asarray", "np.array") and len(v.args) == 1 and norm_src(v.args[0]) == "feature_names"
+        if same:
+            ctx.ok("C19-b", site, f"re-bound to a copy: {norm_src(rb)[:60]}")
+        elif any(isinstance(n, ast.Name) and n.id in ("used_features",) for n in ast.walk(v)) or (isinstance(v, ast.Call) and call_name(v) in ("dict", "zip", "enumerate")):
+            ctx.violation("C19-b", u.relpath, "print_kauri_tree", norm_src(rb)[:140], "feature_names is re-bound to a structure keyed by the features the tree uses: the i-th name is attached "
+                          "to the i-th used feature instead of column i, so a tree that skips a column prints wrong names", line=rb.lineno, site=site)
+        else:
+            ctx.unrecognised("C19-b", site, f"feature_names re-bound: {norm_src(rb)[:60]}")
     guards = [s for s in ast.walk(f) if isinstance(s, ast.If) and "len(feature_names)" in norm_src(s.test) and s.body and isinstance(s.body[-1], ast.Raise)]
     site = "print_kauri_tree: names guard"
     okg = False
@@ -154,4 +171,5 @@ def controls(pm, tier):
     mut("            feature_name = feature_names[feature]", "            feature_name = feature_names[node_id]", "C19-b", "names indexed by node id")
     mut("    check_is_fitted(kauri_tree)\n", "", "C19-c", "unfitted trees are printed")
     mut("            print(\"| \" * current_depth, f\"Cluster: {kauri_tree.tree_.target[node_id]}\")", "            print(\"| \" * current_depth, f\"Cluster: {kauri_tree.tree_.target[left_child]}\")", "C19-a", "leaf prints another node's target")
+    mut("    def print_node(node_id):", "    if feature_names is not None:\n        feature_names = dict(zip(sorted(set(x for x in kauri_tree.tree_.features if x is not None)), feature_names))\n\n    def print_node(node_id):", "C19-b", "names re-keyed by used feature")
     return out
